@@ -332,6 +332,7 @@ def validate_traces(module, traces, out, cfg=None, shard=4000, timeout=900,
     label = label or module
     tmp = scratch('traces')
     verdicts = {}
+    seen = {}
     try:
         shards = [traces[i:i + shard] for i in range(0, len(traces), shard)]
         jobs = []
@@ -360,20 +361,29 @@ def validate_traces(module, traces, out, cfg=None, shard=4000, timeout=900,
             for v in r.prints:
                 if not isinstance(v, dict) or 'v' not in v:
                     continue
-                tid = v.get('tid')
-                if v['v'] in ('ACCEPT', 'KNOWN'):
-                    # a KNOWN verdict is sticky over ACCEPT
-                    if tid in verdicts and verdicts[tid]['v'] == 'KNOWN':
-                        continue
-                    if tid in verdicts and verdicts[tid]['v'] == 'MISMATCH' \
-                            and v['v'] == 'ACCEPT':
-                        verdicts[tid] = v
-                        continue
-                    verdicts[tid] = v
-                elif v['v'] == 'MISMATCH':
-                    verdicts.setdefault(tid, v)
+                seen.setdefault(v.get('tid'), []).append(v)
     finally:
         shutil.rmtree(tmp, ignore_errors=True)
+    # A trace is accepted only if the trace spec reached its TrAccept (printed
+    # last, after every clause held).  KNOWN lines are clauses that matched a
+    # deviation signature on the way: with ACCEPT the verdict is KNOWN (all
+    # signatures are kept in 'devs'); a MISMATCH without ACCEPT is a rejection
+    # even if a KNOWN line was printed earlier for the same trace.
+    for tid, vs in seen.items():
+        kinds = set(v['v'] for v in vs)
+        if 'ACCEPT' in kinds:
+            devs = sorted(set(v.get('dev') for v in vs if v['v'] == 'KNOWN'))
+            if devs:
+                verdicts[tid] = {'v': 'KNOWN', 'tid': tid, 'dev': devs[0],
+                                 'devs': devs}
+            else:
+                verdicts[tid] = {'v': 'ACCEPT', 'tid': tid}
+        elif 'MISMATCH' in kinds:
+            verdicts[tid] = [v for v in vs if v['v'] == 'MISMATCH'][0]
+        else:
+            verdicts[tid] = {'v': 'REJECT', 'tid': tid,
+                             'what': 'the trace spec did not reach its '
+                                     'acceptance (no diagnostic printed)'}
     for t in traces:
         if t['tid'] not in verdicts:
             verdicts[t['tid']] = {'v': 'REJECT', 'tid': t['tid'],
@@ -392,9 +402,11 @@ def settle(out, traces, verdicts, findings_text, describe=None):
         t = bytid.get(tid)
         if v['v'] == 'ACCEPT':
             out.cov['traces_validated_against_impl'] += 1
-        elif v['v'] == 'KNOWN' and v.get('dev') in listed:
+        elif v['v'] == 'KNOWN' and all(dv in listed for dv in
+                                       v.get('devs', [v.get('dev')])):
             out.cov['traces_validated_against_impl'] += 1
-            out.known_finding(v['dev'], listed[v['dev']]['what'])
+            for dv in v.get('devs', [v.get('dev')]):
+                out.known_finding(dv, listed[dv]['what'])
         else:
             what = 'trace %s rejected by the specification: %s' % (
                 tid, json.dumps(v, default=str)[:500])
